@@ -239,7 +239,8 @@ func ruleSemicolon(c *Ctx, r *Report, rule string) {
 	r.rule(rule, 3, "p.match(tSEMICOLON) occurs exactly twice in the parser: once per iteration of the toplevel statement loop and of the block statement loop, right after the statement; ';' has no other role")
 	total := 0
 	inLoops := 0
-	for obj, fd := range c.funcDecls {
+	for _, it := range c.sortedDecls() {
+		obj, fd := it.obj, it.fd
 		if obj.Pkg() == nil || obj.Pkg().Path() != bclPath || fd.Body == nil {
 			continue
 		}
